@@ -31,7 +31,9 @@ REPS = [0x78, 0x7E]            # byte 120 of the specification = class "content 
 RAWREPS = [0x78, 0x7E, 0xFF]   # 0xff only where the bytes are not run through a UTF-8 decoder
 VARIANTS = "ABCD"
 STATUS_TAIL = b"6:statusl5:error10:unknown-op4:doneee"
-JVM = {"JAVA_TOOL_OPTIONS": "-XX:ParallelGCThreads=2"}   # several small TLC jobs run side by side
+# several TLC jobs run side by side; short ones are cheapest without the C2 compiler and with a small nursery
+JVM_SMALL = {"JAVA_TOOL_OPTIONS": "-XX:ParallelGCThreads=2 -Xmx1g -Xmn64m -XX:TieredStopAtLevel=1"}
+JVM_BIG = {"JAVA_TOOL_OPTIONS": "-XX:ParallelGCThreads=4 -Xmx3g -Xmn256m"}
 
 LOOP_SRC = r'''
 (require '[basilisp.contrib.bencode :as bc] '[basilisp.string :as str])
@@ -332,7 +334,7 @@ def edge_views(edge, idx):
     return rep, raw
 
 
-def replay_edge(real, edge, idx, only=None):
+def replay_edge(real, edge, idx, only=None, show=False):
     """-> list of (path, expected, observed, kind).  edge = dict(buf, chunk, n, r, l1, ms, tail)"""
     out = []
     n, r, l1 = edge["n"], edge["r"], edge["l1"]
@@ -361,6 +363,8 @@ def replay_edge(real, edge, idx, only=None):
                 ms, rest = real.loop_step(real.E if path == "loop{}" else real.nrepl_opts, buf, chunk)
             obs = {"msgs": ms, "rest": rest}
         k = kind_of(exp["msgs"], exp["rest"], obs["msgs"], obs["rest"])
+        if show:
+            print(path, "data", data, "\n  expected", canon(exp), "\n  observed", canon(obs), "\n  =>", k or "agree")
         if k:
             out.append((path, exp, obs, k))
     return out
@@ -433,9 +437,10 @@ def replay_shard(args):
                      else "server-does-not-answer-complete-request" if len(o) < len(resp)
                      else "server-answers-other-request")
                 found.append({"path": "on-connect", "idx": idx, "edge": edge,
-                              "exp": {"responses": [list(x) for x in resp]},
-                              "obs": {"responses": [list(x) for x in o], "chunk": list(chunks[i]),
-                                      "chunk_is_edge": is_edge}, "kind": k})
+                              "exp": {"responses": [x.decode("latin-1") for x in resp]},
+                              "obs": {"responses": [x.decode("latin-1") for x in o],
+                                      "chunk": chunks[i].decode("latin-1"), "chunk_is_edge": is_edge},
+                              "kind": k})
                 break        # later chunks of this connection are no longer in a known state
         if -1 in got:
             found.append({"path": "on-connect", "idx": shard[0][0], "edge": shard[0][1],
@@ -456,7 +461,8 @@ class JobResult:
 def tlc_job(args):
     name, module, cfg, workers, env, tags = args
     try:
-        r = tlc.run(module, cfg, workers=workers, env=dict(env or {}, **JVM), timeout=1500)
+        r = tlc.run(module, cfg, workers=workers, env=dict(env or {}, **(JVM_BIG if workers >= 8 else JVM_SMALL)),
+                    timeout=1500)
     except tlc.TLCError as ex:
         return {"name": name, "error": str(ex)[-3000:], "distinct": 0, "generated": 0, "wall": 0.0,
                 "violated": [], "ok": False, "tagged": {}, "trace": ""}
@@ -501,6 +507,11 @@ def rand_msg(rnd, depth, utf8):
     return M_dict(kv)
 
 
+def size(m):
+    """rough length of the encoding"""
+    return 2 + len(m["b"]) + (len(str(m["i"])) if m["ty"] == "int" else 0) + sum(size(x) for x in m["xs"])
+
+
 def cut_plans(rnd, n, extra):
     """lists of chunk lengths: every single cut, byte by byte, and sampled 2-/3-cut sequences"""
     plans = [[n]] + [[c, n - c] for c in range(1, n)]
@@ -518,8 +529,10 @@ def cut_plans(rnd, n, extra):
 def record_stream(real, rnd, tid0, via, extra_cuts):
     """one random stream -> trace records (real encode, real receive path)"""
     utf8 = via != "loop{}"
-    nmsg = rnd.choice([1, 2, 2, 3, 3, 4])
+    nmsg = rnd.choice([1, 2, 2, 3, 3, 4]) if via != "server" else rnd.choice([1, 2, 2, 3])
     msgs = [rand_msg(rnd, 2, utf8) for _ in range(nmsg)]
+    while sum(size(m) for m in msgs) > 70 and len(msgs) > 1:
+        msgs.pop()
     variants = "ABD" + ("C" if real.pydict_ok else "")
     if via == "server":
         sent = [wrap_abs(m) for m in msgs]
@@ -575,6 +588,11 @@ def record_stream(real, rnd, tid0, via, extra_cuts):
     return recs, nexec, via
 
 
+def record_task(args):
+    seed, via, extra_cuts = args
+    return record_stream(_REAL, random.Random(seed), 1, via, extra_cuts)
+
+
 def strip(m):
     """uniform fields only (TLC compares records field by field)"""
     if m["ty"] == "other":
@@ -583,18 +601,18 @@ def strip(m):
 
 
 # ------------------------------------------------------------------------------------------------
+NEG = [("Bencode_NegShort", "Bencode_NegShort.cfg"), ("Bencode_NegInt", "Bencode_NegInt.cfg"),
+       ("Bencode_NegDrop", "Bencode_NegDrop.cfg")]
+
+
 def tier_cfg(tier):
     if tier == "quick":
         return {"mc": [("Bencode_MC", "Bencode_MC.cfg", 3)],
                 "gen": [("Bencode_Gen", "Bencode_Gen.cfg", 4)],
-                "streams": 30, "extra_cuts": 6, "procs": 10, "trace_workers": 3}
+                "streams": 18, "extra_cuts": 6, "procs": 10, "trace_workers": 3, "neg": NEG[:1]}
     return {"mc": [("Bencode_MC2", "Bencode_MC2.cfg", 3), ("Bencode_MCt", "Bencode_MCt.cfg", 8)],
             "gen": [("Bencode_Gen2", "Bencode_Gen2.cfg", 4), ("Bencode_Gent", "Bencode_Gent.cfg", 8)],
-            "streams": 300, "extra_cuts": 20, "procs": 14, "trace_workers": 8}
-
-
-NEG = [("Bencode_NegShort", "Bencode_NegShort.cfg"), ("Bencode_NegInt", "Bencode_NegInt.cfg"),
-       ("Bencode_NegDrop", "Bencode_NegDrop.cfg")]
+            "streams": 150, "extra_cuts": 20, "procs": 14, "trace_workers": 8, "neg": NEG}
 
 
 def run_part(chk):
@@ -621,19 +639,20 @@ def _run(chk, real, cfg, pool):
         jobs[name] = pool.apply_async(tlc_job, ((name, "Bencode", c, w, None, ()),))
     for name, c, w in cfg["gen"]:
         jobs[name] = pool.apply_async(tlc_job, ((name, "Bencode", c, w, None, ("STR", "EDG")),))
-    for name, c in NEG:
+    for name, c in cfg["neg"]:
         jobs[name] = pool.apply_async(tlc_job, ((name, "Bencode", c, 1, None, ()),))
 
-    # ---- code -> spec: record (in this process: deterministic order), validate in TLC ------------
-    rnd = random.Random(chk.seed * 7919 + 1903)
-    traces, nexec, per_via = [], 0, {}
+    # ---- code -> spec: record (one task per stream, seeded per stream), validate in TLC ----------
     vias = ["loop{}", "loop-nrepl", "server"]
-    for s in range(cfg["streams"]):
-        recs, ne, via = record_stream(real, rnd, len(traces) + 1, vias[s % 3], cfg["extra_cuts"])
-        traces += recs
+    tasks = [(chk.seed * 7919 + 1903 + s * 104729, vias[s % 3], cfg["extra_cuts"]) for s in range(cfg["streams"])]
+    traces, nexec, per_via = [], 0, {}
+    for recs, ne, via in pool.map(record_task, tasks, chunksize=1):
+        for t in recs:
+            t["id"] = len(traces) + 1
+            traces.append(t)
         nexec += ne
         per_via[via] = per_via.get(via, 0) + len(recs)
-        if s < 3:
+        if len(chk.samples) < 3:
             chk.sample({"bencode_trace": {"via": recs[0]["via"], "wire": bytes(recs[0]["wire"]).decode("latin-1"),
                                           "cuts": [st["k"] for st in recs[min(2, len(recs) - 1)]["steps"]]}})
     timing["record_traces"] = round(time.time() - t0, 1)
@@ -697,6 +716,8 @@ def _run(chk, real, cfg, pool):
             e = d["edge"]
             chk.discrepancy("Bencode!Recv" if d["path"] != "decode" else "Bencode!Decode",
                             {"part": PART, "kind": "edge", "path": d["path"], "idx": d["idx"],
+                             "text": {"buf": bytes(e["buf"]).decode("latin-1"),
+                                      "chunk": bytes(e["chunk"]).decode("latin-1")},
                              "edge": {k: e[k] for k in ("buf", "chunk", "n", "r", "l1", "ms", "tail")},
                              "enc": {canon(m): enc_of[canon(m)] for m in e["ms"]}},
                             d["exp"], d["obs"], sig=sig, module="Bencode", direction="spec->code")
@@ -714,14 +735,14 @@ def _run(chk, real, cfg, pool):
     for name, c, w in cfg["mc"]:
         r = JobResult(jobs[name].get())
         _tlc_ok(chk, r, "design check")
-    for name, c in NEG:
+    for name, c in cfg["neg"]:
         r = JobResult(jobs[name].get())
         chk.add_tlc(name, r)
         if r.error:
             chk.machinery(f"{name}: TLC failed: {r.error[-400:]}")
         elif not r.violated:
             chk.machinery(f"{name}: the deviating decoder model was NOT rejected (the invariants are vacuous)")
-    chk.extra["bencode_negative_models_rejected"] = [n for n, _ in NEG]
+    chk.extra["bencode_negative_models_rejected"] = [n for n, _ in cfg["neg"]]
 
     timing["design_checks_done"] = round(time.time() - t0, 1)
     # ---- trace verdicts --------------------------------------------------------------------------
@@ -831,7 +852,9 @@ def _diagnose(chk, rej):
                 kind = ("server-answers-request-it-has-not-received-completely" if len(st["resp"]) > len(exp["resp"])
                         else "server-does-not-answer-complete-request" if len(st["resp"]) < len(exp["resp"])
                         else "server-answers-other-request")
-                exp, obs = {"responses": exp["resp"]}, {"responses": st["resp"]}
+                exp = {"responses": [bytes(x).decode("latin-1") for x in exp["resp"]]}
+                obs = {"responses": [bytes(x).decode("latin-1") for x in st["resp"]],
+                       "chunk": bytes(t["wire"][sum(x["k"] for x in t["steps"][:step]):][:st["k"]]).decode("latin-1")}
         sig = f"bencode:trace-{t['via']}:{kind}"
         if sig in seen:
             continue
@@ -877,13 +900,12 @@ def replay_part(chk, body):
             for i, (c, resp) in enumerate(plan):
                 print("recv", c, "-> responses", got.get(i, []), "expected", resp)
                 if got.get(i, []) != resp:
-                    chk.discrepancy(body["clause"], case, {"responses": [list(x) for x in resp]},
-                                    {"responses": [list(x) for x in got.get(i, [])]}, sig=body.get("sig"),
+                    chk.discrepancy(body["clause"], case, {"responses": [x.decode("latin-1") for x in resp]},
+                                    {"responses": [x.decode("latin-1") for x in got.get(i, [])]}, sig=body.get("sig"),
                                     module="Bencode", direction="replay")
                     break
         else:
-            for path, exp, obs, k in replay_edge(real, edge, idx, only=case["path"]):
-                print(path, "expected", exp, "observed", obs, k)
+            for path, exp, obs, k in replay_edge(real, edge, idx, only=case["path"], show=True):
                 chk.discrepancy(body["clause"], case, exp, obs, sig=body.get("sig"), module="Bencode",
                                 direction="replay")
     elif kind == "trace":
